@@ -116,6 +116,11 @@ EDGES = (0.0, 0.1, 3.9, 4.0, 6.9, 7.0, 8.9, 9.0, 10.0)
 
 
 def blocks(tier):
+    return _blocks(tier) + [spaces.interaction_block("2", tier), spaces.interaction_block("3.0", tier, twin="3.1"),
+                            spaces.interaction_block("4.0", tier)]
+
+
+def _blocks(tier):
     if tier == "thorough":
         return spaces.v2_blocks("thorough") + spaces.v3_blocks("thorough") + \
             spaces.v4_blocks("thorough", "short")
